@@ -296,6 +296,19 @@ func (w *World) checkErrFlow(src errSource, nr *noReturnInfo) efResult {
 				return fail(n, in, "the error is overwritten by the next call of "+src.Callee+" before it was handled (e.g. `continue` on error)")
 			}
 			switch x := in.(type) {
+			case *ssa.Store:
+				// results spilled to memory (functions with defer), or err variables captured by closures
+				if _, isAlloc := x.Addr.(*ssa.Alloc); isAlloc {
+					if aliasOf(x.Val, n.tracked) {
+						n.tracked[x.Addr] = true
+					} else if n.tracked[x.Addr] {
+						delete(n.tracked, x.Addr)
+					}
+				}
+			case *ssa.UnOp:
+				if x.Op == token.MUL && n.tracked[x.X] {
+					n.tracked[x] = true
+				}
 			case *ssa.Call:
 				if nr.callNoReturn(&x.Call) {
 					terminated = true
